@@ -13,6 +13,9 @@ import (
 // WriterSpec names a location class and the only functions allowed to write it.
 // Kind "map": MapUpdate (insertions) into the map held by package-level variable
 // Target ("pkgpath.Name"). Kind "field": stores to field Target ("pkgpath.Type.field").
+// Kind "ctor-field": like "field", and every store must target an object allocated in the
+// storing function itself (a constructor initialising its fresh object): the field of an
+// already existing object never changes.
 // Kind "calls": static calls (also go/defer) of function Target ("pkgpath.Func"); Allowed
 // entries may be qualified with the short package name ("fstree.writeFile").
 type WriterSpec struct {
@@ -49,13 +52,16 @@ func (e *Engine) checkWriters(ws WriterSpec) (offenders []string, sites int) {
 						hit = true
 					}
 				case *ssa.Store:
-					if ws.Kind == "field" {
+					if ws.Kind == "field" || ws.Kind == "ctor-field" {
 						if fa, ok := x.Addr.(*ssa.FieldAddr); ok {
 							st := fa.X.Type().Underlying().(*types.Pointer).Elem()
 							if n, ok := st.(*types.Named); ok && n.Obj().Pkg() != nil {
 								name := n.Obj().Pkg().Path() + "." + n.Obj().Name() + "." + st.Underlying().(*types.Struct).Field(fa.Field).Name()
 								if name == ws.Target {
 									hit = true
+									if _, fresh := fa.X.(*ssa.Alloc); ws.Kind == "ctor-field" && !fresh {
+										offenders = append(offenders, shortPkg(funcPkgPath(fn))+"."+funcTarget(fn)+" stores to an object it did not allocate ("+e.pos(ins.Pos())+")")
+									}
 								}
 							}
 						}
